@@ -78,6 +78,9 @@ func Verify(stump Stump, delHashes []Hash, proof Proof) ([]int, error) {
 			"hashes for those targets", len(proof.Targets), len(delHashes))
 	}
 
+	if err := checkNoEmptyHashes(delHashes, proof); err != nil {
+		return nil, err
+	}
 	_, rootCandidates, err := calculateHashes(stump.NumLeaves, delHashes, proof)
 	if err != nil {
 		return nil, err
